@@ -30,13 +30,14 @@ var operandOrder = map[string][]string{
 func C14(ctx *Ctx) {
 	R := ctx.R
 	R.Explanation = "The trace renderers (cpu65c816.DisassembleCurrentPC used by System.RunUntil; cpualt.Disassemble and DisassembleCurrentPC) are abstractly interpreted per opcode x M,X,E cell with the buffer/formatter calls recorded as render events. pure: no CPU field changes and no bus write in any cell, and in RunUntil the logging region contains only the renderer call and Logger.Write and nothing else consumes Logger. length: the instruction bytes read are exactly bytes 0..L-1 where L is the length Step decodes for the same cell. operand-order: after the mnemonic, the operand bytes rendered are those of the addressing mode, most significant first. branch-target: the rel8/rel16 destination term rendered equals the target Step computes (StepInfo.Addr at dispatch, same symbols). registers: no rendered value depends on a non-authoritative register copy; each flag letter is paired with its own flag field. before: within an iteration of RunUntil the log write precedes Step."
-	R.Trusted = []string{"go/packages + go/ssa", "absint", "ref/isa65816.json", "xbuf.B methods and fmt only append what they are given (their own formatting is not checked)", "Logger.Write does not modify the CPU"}
+	R.Trusted = []string{"go/packages + go/ssa", "absint", "ref/isa65816.json", "fmt and strconv format as documented", "Logger.Write does not modify the CPU"}
 	R.Rule("pure", "rendering a trace line changes no CPU field and writes no memory; RunUntil's logging region holds only the renderer and Logger.Write, and Logger is consumed nowhere else in a way that affects execution")
 	R.Rule("length", "the renderer reads exactly the instruction bytes 0..L-1, L = length decoded by Step for the same opcode and widths")
 	R.Rule("operand-order", "after the mnemonic the operand bytes of the addressing mode are rendered most significant first (block move: source, destination)")
 	R.Rule("branch-target", "the destination rendered for rel8 / rel16 is the address Step computes for the same instruction")
 	R.Rule("registers", "rendered register values are the authoritative copies for the current widths; flag letters are paired with their own flag fields")
 	R.Rule("before", "in every iteration of RunUntil the trace line is written before Step executes")
+	checkXbuf(ctx)
 	isa, err := loadISA(ctx)
 	if err != nil {
 		R.Fail("length", "reference", "", err.Error())
@@ -370,7 +371,82 @@ func checkLoggerRegion(ctx *Ctx) {
 	}
 	L, step := loops[0], steps[0]
 	okPure, okBefore := true, true
-	nWrites := 0
+	nWrites, nAssert := 0, 0
+	// checkRegion: the blocks dominated by edge iff->Succs[rk] hold only allowed calls,
+	// no stores, and no value defined there (or chosen by having been there) flows out.
+	checkRegion := func(iff *ssa.If, rk int, name string, allowed func(*ssa.Call) bool, allowedDesc string) {
+		region := iff.Block().Succs[rk]
+		if !edgeDominates(iff.Block(), rk, region) {
+			okPure = false
+			R.Fail("pure", "RunUntil:"+name+":entry", ctx.Prog.Pos(iff.Pos()), "the region can be entered without passing its guard")
+		}
+		for _, rb := range fn.Blocks {
+			if !region.Dominates(rb) {
+				continue
+			}
+			for _, ri := range rb.Instrs {
+				switch y := ri.(type) {
+				case *ssa.Call:
+					if !allowed(y) {
+						okPure = false
+						R.Fail("pure", "RunUntil:"+name+":"+y.String(), ctx.Prog.Pos(y.Pos()), "the region calls something other than "+allowedDesc)
+					}
+				case *ssa.Store, *ssa.MapUpdate, *ssa.Send, *ssa.Go, *ssa.Panic:
+					okPure = false
+					R.Fail("pure", "RunUntil:"+name+":store", ctx.Prog.Pos(ri.Pos()), "the region has an effect other than its allowed calls: "+ri.String())
+				case *ssa.Return:
+					okPure = false
+					R.Fail("pure", "RunUntil:"+name+":return", ctx.Prog.Pos(ri.Pos()), "RunUntil returns from inside the region")
+				}
+				// a value defined in the region and used outside it
+				if v, ok := ri.(ssa.Value); ok {
+					if refs := v.Referrers(); refs != nil {
+						for _, u := range *refs {
+							if u.Block() != nil && !region.Dominates(u.Block()) {
+								if _, isDbg := u.(*ssa.DebugRef); !isDbg {
+									okPure = false
+									R.Fail("pure", "RunUntil:"+name+":flow-out", ctx.Prog.Pos(u.Pos()), "a value computed in the region is used outside it: "+u.String())
+								}
+							}
+						}
+					}
+				}
+			}
+			// leaving the region: no phi may distinguish the region's edge
+			for _, succ := range rb.Succs {
+				if region.Dominates(succ) {
+					continue
+				}
+				for _, si := range succ.Instrs {
+					ph, ok := si.(*ssa.Phi)
+					if !ok {
+						continue
+					}
+					// the value arriving over the region's edge must be the one arriving
+					// over every edge that bypasses the region (back edges aside)
+					var inside ssa.Value
+					same := true
+					for pi, pb := range succ.Preds {
+						if pb == rb {
+							inside = ph.Edges[pi]
+						}
+					}
+					for pi, pb := range succ.Preds {
+						if region.Dominates(pb) || succ.Dominates(pb) {
+							continue
+						}
+						if ph.Edges[pi] != inside {
+							same = false
+						}
+					}
+					if !same {
+						okPure = false
+						R.Fail("pure", "RunUntil:"+name+":phi", ctx.Prog.Pos(ph.Pos()), "a value chosen in the region is merged back into execution: "+ph.Comment+" = "+ph.String())
+					}
+				}
+			}
+		}
+	}
 	for _, b := range fn.Blocks {
 		for _, in := range b.Instrs {
 			u, ok := in.(*ssa.UnOp)
@@ -398,46 +474,74 @@ func checkLoggerRegion(ctx *Ctx) {
 						if x.Op == token.EQL {
 							rk = 1
 						}
-						region := iff.Block().Succs[rk]
-						if !edgeDominates(iff.Block(), rk, region) {
-							okPure = false
-							R.Fail("pure", "RunUntil:logging-region:entry", ctx.Prog.Pos(iff.Pos()), "the logging region can be entered without passing the Logger != nil test")
-						}
-						for _, rb := range fn.Blocks {
-							if !region.Dominates(rb) {
-								continue
-							}
-							for _, ri := range rb.Instrs {
-								switch y := ri.(type) {
-								case *ssa.Call:
-									callee := y.Call.StaticCallee()
-									isWrite := y.Call.IsInvoke() && y.Call.Method.Name() == "Write"
-									isRender := callee != nil && strings.HasPrefix(callee.Name(), "Disassemble")
-									if !isWrite && !isRender {
-										okPure = false
-										R.Fail("pure", "RunUntil:logging-region:"+y.String(), ctx.Prog.Pos(y.Pos()), "the logging region calls something other than the renderer and Logger.Write")
-									}
-								case *ssa.Store, *ssa.MapUpdate:
-									okPure = false
-									R.Fail("pure", "RunUntil:logging-region:store", ctx.Prog.Pos(ri.Pos()), "the logging region stores to memory")
-								}
-							}
-							// values defined in the region must not flow out (no phi over them)
-							for _, succ := range rb.Succs {
-								if region.Dominates(succ) {
-									continue
-								}
-								for _, si := range succ.Instrs {
-									if _, ok := si.(*ssa.Phi); ok {
-										okPure = false
-										R.Fail("pure", "RunUntil:logging-region:phi", ctx.Prog.Pos(si.Pos()), "a value computed in the logging region is merged back into the loop")
-									}
-								}
+						checkRegion(iff, rk, "logging-region", func(y *ssa.Call) bool {
+							callee := y.Call.StaticCallee()
+							isWrite := y.Call.IsInvoke() && y.Call.Method.Name() == "Write"
+							isRender := callee != nil && strings.HasPrefix(callee.Name(), "Disassemble")
+							return isWrite || isRender
+						}, "the renderer and Logger.Write")
+					}
+				case *ssa.TypeAssert:
+					// Reserver / Committer capability: the asserted value is used only as the
+					// receiver of interface calls, inside the region guarded by the ok result,
+					// and nothing computed there flows back into execution.
+					nAssert++
+					if !x.CommaOk {
+						okPure = false
+						R.Fail("pure", "RunUntil:Logger-capability:"+x.AssertedType.String(), ctx.Prog.Pos(x.Pos()), "capability assertion without ok result: a Logger lacking the capability panics, no Logger does not")
+						break
+					}
+					var val, okv ssa.Value
+					for _, r2 := range *x.Referrers() {
+						if e, ok := r2.(*ssa.Extract); ok {
+							if e.Index == 0 {
+								val = e
+							} else {
+								okv = e
 							}
 						}
 					}
-				case *ssa.TypeAssert:
-					// Reserver / Committer: only method calls on the result are allowed
+					if okv != nil {
+						for _, r2 := range *okv.Referrers() {
+							switch iff := r2.(type) {
+							case *ssa.If:
+								checkRegion(iff, 0, "capability-region:"+x.AssertedType.String(), func(y *ssa.Call) bool {
+									return y.Call.IsInvoke() && y.Call.Value == val
+								}, "a method of the asserted capability")
+							case *ssa.DebugRef:
+							default:
+								okPure = false
+								R.Fail("pure", "RunUntil:Logger-capability:ok-use", ctx.Prog.Pos(r2.Pos()), "the ok result of the capability assertion is used for something other than guarding a region: "+r2.String())
+							}
+						}
+					}
+					if val != nil {
+						for _, r2 := range *val.Referrers() {
+							switch y := r2.(type) {
+							case *ssa.DebugRef:
+							case *ssa.Call:
+								if !(y.Call.IsInvoke() && y.Call.Value == val) {
+									okPure = false
+									R.Fail("pure", "RunUntil:Logger-capability:use", ctx.Prog.Pos(y.Pos()), "the asserted capability is passed on: "+y.String())
+								} else if y.Type() != nil {
+									if tup, isT := y.Type().(*types.Tuple); !(isT && tup.Len() == 0) {
+										if refs := y.Referrers(); refs != nil && len(*refs) > 0 {
+											okPure = false
+											R.Fail("pure", "RunUntil:Logger-capability:result", ctx.Prog.Pos(y.Pos()), "a result of a capability call is consumed: "+y.String())
+										}
+									}
+								}
+							case *ssa.Defer:
+								if !(y.Call.IsInvoke() && y.Call.Value == val) {
+									okPure = false
+									R.Fail("pure", "RunUntil:Logger-capability:use", ctx.Prog.Pos(y.Pos()), "the asserted capability is passed on: "+y.String())
+								}
+							default:
+								okPure = false
+								R.Fail("pure", "RunUntil:Logger-capability:use", ctx.Prog.Pos(r2.Pos()), "unexpected use of the asserted capability: "+r2.String())
+							}
+						}
+					}
 				case *ssa.Call:
 					if x.Call.IsInvoke() && x.Call.Method.Name() == "Write" {
 						nWrites++
@@ -471,6 +575,7 @@ func checkLoggerRegion(ctx *Ctx) {
 		R.Fail("before", "RunUntil:no-write", pos, "RunUntil never writes to Logger")
 	}
 	if okPure {
+		R.Pass("pure", "RunUntil:capability-regions", pos, fmt.Sprintf("%d capability assertions on Logger: comma-ok, used only as call receivers inside their guarded regions; no value or phi leaves those regions", nAssert))
 		R.Pass("pure", "RunUntil:logging-region", pos, "logging region = renderer + Logger.Write; Logger consumed nowhere else")
 	}
 	if okBefore {
